@@ -6,6 +6,12 @@ A GENUINE TRANSLATION (Python `ast`, no pinned source strings) of
   nextline/spawned/plugin/plugins/concurrency.py  TaskAndThreadKeeper: every method but `init`, `context`
                                                   TaskOrThreadToTraceMapper: every method but `init`
   nextline/spawned/plugin/plugins/repeat.py       Repeater.on_start_trace, Repeater.on_end_trace
+  nextline/spawned/plugin/plugins/local_.py       LocalTraceFunc.init, local_trace_func (not clean_exception: checked to touch
+                                                  nothing tracked); the body of the closure Factory(hook)._factory
+  nextline/spawned/plugin/plugins/pdb_/factory.py PdbInstanceFactory: every method; the body of the closure Factory(hook)._factory
+                                                  (PINNED around them: the shape of the two Factory functions, see read_closure_factory)
+  nextline/spawned/utils.py                       WithContext: three pinned facts (check_with_context)
+  nextline/spawned/plugin/plugins/**              every id hook has exactly one @hookimpl, in its expected class, registered once
   nextline/utils/aio.py                           current_task_or_thread
   nextline/count.py                               the counter constructors (+ the shape of CastedCounter)
   nextline/types.py                               ThreadTaskId (two fields, no __bool__/__len__), the NewType numbers
@@ -30,9 +36,15 @@ constructors OnStartTrace/OnEndTrace (fields trace_no, thread_no, task_no) and `
 except <Name>: ..`, which methods carry `@hookimpl`.
 
 Ignored (untracked): docstrings, comments, type annotations, logging (`self._logger...`,
-`logger...`, `self._logger = getLogger(..)`), assignments to `self._hook`, the fields run_no /
-started_at / ended_at of an event, assignments of a value that involves neither `self` nor a tracked
-local to a local that is used in no tracked position (`started_at = datetime.datetime.utcnow()`),
+`logger...`, `self._logger = getLogger(..)`; the arguments must contain no call / walrus / await),
+`self._hook = hook`, the fields run_no / started_at / ended_at of an event (no call inside),
+assignments to a local, used in no tracked position, of a value without any call that involves
+neither `self` nor a tracked local.  Reading the clock (`x = datetime.datetime.utcnow()`) stays
+visible as an opaque statement.  An `assert` is never dropped (it is a raising branch or the
+translation fails).  Module-level statements that rebind or mention a translated name, class
+bases, class-level statements other than annotations/docstrings, decorators other than @hookimpl,
+parameter defaults, __bool__/__len__/__eq__/__hash__/__enter__/__exit__/__getitem__/.. in a
+translated class: all refused.
 `TaskAndThreadKeeper.init/context` and `TaskOrThreadToTraceMapper.init` as long as they touch
 no container, no counter and no tracked attribute (checked), `self._callback.register(..)`
 (emitted as the opaque statement it is for this model).
@@ -55,6 +67,8 @@ SRC_TYPES = 'nextline/types.py'
 SRC_UTILS = 'nextline/utils/__init__.py'
 
 CLASSES = {
+    'LocalTraceFunc': 'Local',
+    'PdbInstanceFactory': 'PdbFactory',
     'ThreadTaskIdComposer': 'Composer',
     'TaskAndThreadKeeper': 'Keeper',
     'TaskOrThreadToTraceMapper': 'Mapper',
@@ -63,12 +77,32 @@ CLASSES = {
 # attributes whose value this model does not follow; assignments to them are dropped, reads are refused
 UNTRACKED_ATTRS = {'_logger', '_hook', '_callback', '_run_no', '_queue_out'}
 # methods that are not translated; they must not touch anything tracked (checked by `check_skipped`)
-SKIPPED = {'Keeper': {'init', 'context'}, 'Mapper': {'init'}, 'Composer': set()}
+SKIPPED = {'Keeper': {'init', 'context'}, 'Mapper': {'init'}, 'Composer': set(), 'Local': {'clean_exception'}, 'PdbFactory': set()}
 SKIPPED_MAY_STORE = UNTRACKED_ATTRS | {'_main_thread'}
 REPEATER_METHODS = ['on_start_trace', 'on_end_trace']
 EVENT_FIELDS_DROPPED = {'run_no', 'started_at', 'ended_at'}
 EVENTS = {'OnStartTrace', 'OnEndTrace'}
-FIELDS = {'thread_no', 'task_no'}
+FIELDS = {'thread_no', 'task_no', 'trace_dispatch'}
+SRC_LOCAL = 'nextline/spawned/plugin/plugins/local_.py'
+SRC_PDBFACTORY = 'nextline/spawned/plugin/plugins/pdb_/factory.py'
+SRC_SPAWNED_UTILS = 'nextline/spawned/utils.py'
+SRC_PLUGINS_INIT = 'nextline/spawned/plugin/plugins/__init__.py'
+PLUGINS_DIR = 'nextline/spawned/plugin/plugins'
+# the hooks through which a thread / task gets its numbers and its own debugger: each has exactly one implementation
+ID_HOOKS = {
+    'filtered': 'TaskAndThreadKeeper', 'current_thread_no': 'TaskAndThreadKeeper', 'current_task_no': 'TaskAndThreadKeeper',
+    'current_trace_no': 'TaskOrThreadToTraceMapper', 'on_start_task_or_thread': 'TaskOrThreadToTraceMapper',
+    'on_end_task_or_thread': 'TaskOrThreadToTraceMapper', 'local_trace_func': 'LocalTraceFunc',
+    'create_local_trace_func': 'PdbInstanceFactory',
+}
+# objects of classes this model does not look into: (module, name) -> (kind, tracked keyword/positional fields, dropped ones)
+INSTANCES = {
+    ('nextline.spawned.plugin.plugins.pdb_.stream', 'StdInOut'): ('StdInOut', [], ['prompt_func']),
+    ('nextline.spawned.plugin.plugins.pdb_.custom', 'CustomizedPdb'): ('CustomizedPdb', ['stdin', 'stdout'], ['cmdloop_hook']),
+    ('nextline.spawned.utils', 'WithContext'): ('WithContext', ['trace'], ['context']),
+}
+INSTANCE_POSITIONAL = {'WithContext': ['trace', 'context']}
+PURE_CLOCK_CALLS = {'datetime.datetime.utcnow()', 'datetime.datetime.now()'}
 CONTAINER_CTORS = {
     ('weakref', 'WeakKeyDictionary'): 'KDict', ('builtins', 'dict'): 'KDict',
     ('weakref', 'WeakSet'): 'KSet', ('builtins', 'set'): 'KSet',
@@ -168,6 +202,9 @@ def is_self_attr(node, names=None) -> bool:
             and (names is None or node.attr in names))
 
 
+CLOSURE_HOOK = [False]       # inside Factory(hook)._factory the plugin manager is the closure variable `hook`
+
+
 def hook_call(node):
     """self._hook.hook.<name>(...) -> name"""
     if not isinstance(node, ast.Call):
@@ -175,6 +212,9 @@ def hook_call(node):
     f = node.func
     if (isinstance(f, ast.Attribute) and isinstance(f.value, ast.Attribute) and f.value.attr == 'hook'
             and is_self_attr(f.value.value, {'_hook'})):
+        return f.attr
+    if (CLOSURE_HOOK[0] and isinstance(f, ast.Attribute) and isinstance(f.value, ast.Attribute) and f.value.attr == 'hook'
+            and isinstance(f.value.value, ast.Name) and f.value.value.id == 'hook'):
         return f.attr
     return None
 
@@ -219,6 +259,8 @@ class ClassTr:
         self.fn = '?'
         self.locals: set[str] = set()
         self.opaque: set[str] = set()
+        self.funrefs: dict[str, str] = {}        # local name -> translated closure it holds
+        self.factories: dict[str, str] = {}      # module-level function name -> name of the closure it returns
 
     def err(self, node, msg):
         raise TranslateError(f'{self.rel}: {self.pyname}.{self.fn}:{getattr(node, "lineno", "?")}: {msg}: `{norm(node).splitlines()[0]}`')
@@ -399,8 +441,34 @@ class ClassTr:
                         continue
                     fs.append(f'({q(k.arg)}, {self.expr(k.value)})')
                 return f'(EEvent {q(r[1])} [{"; ".join(fs)}])'
+            if r in INSTANCES:
+                kind, tracked, dropped = INSTANCES[r]
+                pos = INSTANCE_POSITIONAL.get(kind, [])
+                if len(e.args) > len(pos):
+                    self.err(e, f'positional arguments of {kind}(..)')
+                given = dict(zip(pos, e.args))
+                for k in e.keywords:
+                    if k.arg in given:
+                        self.err(e, f'argument {k.arg} given twice')
+                    given[k.arg] = k.value
+                if set(given) != set(tracked) | set(dropped):
+                    self.err(e, f'{kind}(..) is not called with exactly {tracked + dropped}')
+                for d in dropped:
+                    if not isinstance(given[d], ast.Name):
+                        self.err(e, f'the argument {d} of {kind}(..) is not a plain name')
+                fs = '; '.join(f'({q(t)}, {self.expr(given[t])})' for t in tracked)
+                return f'(ENewInst {q(kind)} [{fs}])'
             self.err(e, f'call of {r[0]}.{r[1]} not understood')
-        # f(): a counter object / the composer
+        if r is None and isinstance(f, ast.Name) and f.id in self.factories and f.id not in self.locals:
+            kws = {k.arg: k.value for k in e.keywords}
+            one = e.args[0] if len(e.args) == 1 and not kws else kws.get('hook') if not e.args and set(kws) == {'hook'} else None
+            if not (isinstance(one, ast.Name) and one.id == 'hook' and 'hook' in self.locals):
+                self.err(e, 'the closure factory is not called as Factory(hook)')
+            return f'(EFunRef {q(self.factories[f.id])})'
+        # f(a, ..): a trace function held in a local
+        if isinstance(f, ast.Name) and f.id in self.locals and f.id not in self.opaque and e.args and not e.keywords:
+            return f'(ECallArgs {self.expr(f)} {self.exprs(e.args)})'
+        # f(): a counter object / the composer / a closure
         if not e.args and not e.keywords:
             return f'(ECall {self.expr(f)})'
         self.err(e, 'call not understood')
@@ -427,6 +495,8 @@ class ClassTr:
         if v.keywords:
             self.err(v, 'keyword arguments of a container constructor')
         if kind == 'KDefault':
+            if len(v.args) == 1 and isinstance(v.args[0], ast.Name) and v.args[0].id in self.funrefs:
+                return f'(KDefault (ECall (EFunRef {q(self.funrefs[v.args[0].id])})))'
             if len(v.args) != 1 or not isinstance(v.args[0], ast.Lambda):
                 self.err(v, 'defaultdict(..) without a lambda factory')
             lam = v.args[0]
@@ -451,11 +521,18 @@ class ClassTr:
             try:
                 v = self.expr(value)
             except TranslateError:
-                if self.untracked_value(value):
+                if norm(value) in PURE_CLOCK_CALLS and self.imports.get('datetime') == ('datetime', None):
+                    # reading the clock: the value is not followed, the call stays visible
+                    self.opaque.add(target.id)
+                    return f'(SOpaque {q(norm(value))})'
+                if self.untracked_value(value) and not any(isinstance(n, ast.Call) for n in ast.walk(value)):
                     self.opaque.add(target.id)
                     return None
                 raise
             self.opaque.discard(target.id)
+            self.funrefs.pop(target.id, None)
+            if v.startswith('(EFunRef '):
+                self.funrefs[target.id] = v[len('(EFunRef "'):-2]
             return f'(SAssign {q(target.id)} {v})'
         if isinstance(target, ast.Tuple) and len(target.elts) == 2 and all(isinstance(x, ast.Name) for x in target.elts):
             a, b = target.elts
@@ -470,12 +547,14 @@ class ClassTr:
                 if r != ('logging', 'getLogger'):
                     self.err(st, 'self._logger is not assigned logging.getLogger(..)')
                 return None
+            if name == '_hook' and isinstance(value, ast.Name) and value.id == 'hook' and 'hook' in self.locals:
+                return None
             if name in UNTRACKED_ATTRS:
                 self.err(st, 'an attribute this model does not follow is assigned in a translated method')
             k = self.container_ctor(value)
             if k is not None:
-                if self.fn != '__init__':
-                    self.err(st, 'a container is replaced outside __init__')
+                if self.fn not in ('__init__', 'init'):
+                    self.err(st, 'a container is replaced outside __init__ / init')
                 return f'(SNewContainer ({self.coq}, {q(name)}) {k})'
             if name in self.containers:
                 self.err(st, 'a container attribute is assigned something that is not a container constructor')
@@ -485,6 +564,11 @@ class ClassTr:
             if d is None:
                 self.err(st, 'item assignment to something that is not a container attribute of self')
             return f'(SSetItem {d} {self.expr(target.slice)} {self.expr(value)})'
+        if (isinstance(target, ast.Attribute) and isinstance(target.value, ast.Name) and target.value.id in self.locals
+                and target.value.id not in self.opaque and isinstance(value, ast.Attribute) and isinstance(value.value, ast.Name)
+                and value.value.id in self.locals and target.attr == 'prompt_end' and value.attr == 'prompt'):
+            # stdio.prompt_end = pdb.prompt: wiring inside the new (StdInOut, CustomizedPdb) pair; not followed, kept visible
+            return f'(SOpaque {q(norm(st))})'
         self.err(st, 'assignment target not understood')
 
     def stmt(self, st, ind: int) -> str | None:
@@ -553,12 +637,7 @@ class ClassTr:
                 self.err(st, 'raise of something that is not a plain exception class')
             return f'(SRaise {q(c.id)})'
         if isinstance(st, ast.Assert):
-            try:
-                c = self.expr(st.test)
-            except TranslateError:
-                if self.untracked_value(st.test) and not any(isinstance(n, ast.Call) for n in ast.walk(st.test)):
-                    return None
-                raise
+            c = self.expr(st.test)          # an assert can raise: it is a raising branch, never dropped
             return f'(SIf {c} SSkip (SRaise {q("AssertionError")}))'
         if isinstance(st, ast.Try):
             if st.orelse or st.finalbody or len(st.handlers) != 1:
@@ -616,11 +695,11 @@ class ClassTr:
 
 
 def containers_of(init_fn, tr: ClassTr) -> dict:
-    """the attributes that __init__ creates as containers (first pass, before the bodies are translated)"""
+    """the attributes that __init__ / init creates as containers (first pass, before the bodies are translated)"""
     out = {}
     if init_fn is None:
         return out
-    tr.fn = '__init__'
+    tr.fn = init_fn.name
     tr.locals = {x.arg for x in init_fn.args.args}
     for st in ast.walk(init_fn):
         tgt = val = None
@@ -649,16 +728,20 @@ def check_skipped(cls_coq: str, pyname: str, fn, containers: dict, tracked_attrs
             raise TranslateError(f'{pyname}.{fn.name}:{n.lineno}: calls a hook (method not translated)')
 
 
-def translate_class(tree, rel: str, pyname: str, counters: set, only: list[str] | None = None) -> dict:
+def translate_class(tree, rel: str, pyname: str, counters: set, only: list[str] | None = None, factories: dict | None = None) -> dict:
     coq = CLASSES[pyname]
     cls = find_class(tree, pyname, rel)
     ms = methods_of(cls)
-    for dunder in ('__getattr__', '__setattr__', '__getattribute__', '__bool__', '__len__', '__eq__', '__hash__'):
+    for dunder in ('__getattr__', '__setattr__', '__getattribute__', '__bool__', '__len__', '__eq__', '__hash__',
+                   '__enter__', '__exit__', '__aenter__', '__aexit__', '__post_init__', '__getitem__', '__missing__'):
         if dunder in ms:
             raise TranslateError(f'{pyname}.{dunder} defined (changes attribute access / truthiness / identity)')
     imports = imports_of(tree, rel)
     tr = ClassTr(coq, pyname, rel, imports, {}, set(ms), counters)
+    tr.factories = dict(factories or {})
     tr.containers = containers_of(ms.get('__init__'), tr)
+    if 'init' in ms and 'init' not in SKIPPED.get(coq, set()) and only is None:
+        tr.containers.update(containers_of(ms['init'], tr))
     res = {}
     if only is not None:
         for name in only:
@@ -796,6 +879,157 @@ def check_utils(tree):
         raise TranslateError(f'{SRC_UTILS}: ThreadTaskIdComposer is {imp.get("ThreadTaskIdComposer")}')
 
 
+
+# ------------------------------------------------------------------ the closures Factory(hook)._factory; scans of the plugin package
+
+def read_closure_factory(tree, rel: str, setup_callees: set[str], droppable_nested: set[str]) -> str:
+    """`def Factory(hook): <name = Callee(hook) ..>; def _factory(): ...; return _factory` -> the body of _factory.
+    PIN of the shape of Factory (parameter `hook`, set-up assignments from the named module-level callees, exactly one
+    nested `_factory` without parameters, `return _factory`) + TRANSLATION of the body of `_factory`."""
+    xs = [n for n in tree.body if isinstance(n, (ast.FunctionDef, ast.AsyncFunctionDef)) and n.name == 'Factory']
+    if len(xs) != 1 or not isinstance(xs[0], ast.FunctionDef):
+        raise TranslateError(f'{rel}: expected exactly one plain function Factory')
+    fn = xs[0]
+    a = fn.args
+    if fn.decorator_list or [x.arg for x in a.args] != ['hook'] or a.defaults or a.vararg or a.kwarg or a.kwonlyargs or a.posonlyargs:
+        raise TranslateError(f'{rel}: Factory is not `def Factory(hook)` without decorators')
+    inner = None
+    closure_names = set()
+    body = strip_doc(fn.body)
+    for i, st in enumerate(body):
+        if isinstance(st, ast.Assign) and len(st.targets) == 1 and isinstance(st.targets[0], ast.Name) and isinstance(st.value, ast.Call) \
+                and isinstance(st.value.func, ast.Name) and st.value.func.id in setup_callees and inner is None:
+            c = st.value
+            args = list(c.args) + [k.value for k in c.keywords]
+            if any(not (isinstance(x, ast.Name) and x.id == 'hook') for x in args) or any(k.arg != 'hook' for k in c.keywords):
+                raise TranslateError(f'{rel}: Factory:{st.lineno}: `{norm(st)}` passes something other than hook')
+            closure_names.add(st.targets[0].id)
+        elif isinstance(st, ast.FunctionDef) and st.name == '_factory' and inner is None:
+            inner = st
+        elif isinstance(st, ast.Return) and inner is not None and i == len(body) - 1 and isinstance(st.value, ast.Name) and st.value.id == '_factory':
+            pass
+        else:
+            raise TranslateError(f'{rel}: Factory:{st.lineno}: statement `{norm(st).splitlines()[0]}` not understood')
+    if inner is None or not isinstance(body[-1], ast.Return):
+        raise TranslateError(f'{rel}: Factory does not define and return `_factory`')
+    ia = inner.args
+    if inner.decorator_list or ia.args or ia.vararg or ia.kwarg or ia.kwonlyargs or ia.posonlyargs:
+        raise TranslateError(f'{rel}: Factory._factory has parameters / decorators')
+    tr = ClassTr('Local', 'Factory', rel, imports_of(tree, rel), {}, set(), set())
+    tr.fn = '_factory'
+    stmts = []
+    nested = []
+    for st in strip_doc(inner.body):
+        if isinstance(st, ast.FunctionDef) and st.name in droppable_nested:
+            nested.append(st)
+        else:
+            stmts.append(st)
+    tr.locals = {n.id for st in stmts for n in ast.walk(st) if isinstance(n, ast.Name) and isinstance(n.ctx, ast.Store)}
+    for st in stmts:
+        for n in ast.walk(st):
+            if isinstance(n, (ast.FunctionDef, ast.AsyncFunctionDef, ast.ClassDef, ast.Lambda, ast.Global, ast.Nonlocal, ast.Yield,
+                              ast.YieldFrom, ast.Await)):
+                raise TranslateError(f'{rel}: Factory._factory:{n.lineno}: nested definition / nonlocal / yield')
+            if isinstance(n, ast.Name) and n.id == 'self':
+                raise TranslateError(f'{rel}: Factory._factory mentions self')
+    for nd in nested:
+        # a nested definition is only DEFINED here; it must not get at the locals that carry the new debugger
+        for n in ast.walk(nd):
+            if isinstance(n, ast.Name) and n.id in tr.locals:
+                raise TranslateError(f'{rel}: Factory._factory.{nd.name}:{n.lineno}: uses the local `{n.id}` of _factory')
+            if isinstance(n, ast.Nonlocal) and set(n.names) & (tr.locals | closure_names):
+                raise TranslateError(f'{rel}: Factory._factory.{nd.name}: nonlocal {n.names}')
+            if isinstance(n, ast.Call) and isinstance(n.func, ast.Attribute) and n.func.attr in ID_HOOKS:
+                raise TranslateError(f'{rel}: Factory._factory.{nd.name}:{n.lineno}: calls the hook {n.func.attr}')
+    tr.locals |= {nd.name for nd in nested}
+    tr.opaque = {nd.name for nd in nested}
+    CLOSURE_HOOK[0] = True
+    try:
+        # the closure variables may only appear where an argument is dropped (checked by the INSTANCES table)
+        return tr.block(stmts, 2)
+    finally:
+        CLOSURE_HOOK[0] = False
+
+
+def check_with_context(tree):
+    """WithContext(trace, context) calls `trace(frame, event, arg)` (PIN of three facts of nextline/spawned/utils.py)"""
+    xs = [n for n in tree.body if isinstance(n, ast.FunctionDef) and n.name == 'WithContext']
+    if len(xs) != 1 or [a.arg for a in xs[0].args.args] != ['trace', 'context'] or xs[0].decorator_list:
+        raise TranslateError(f'{SRC_SPAWNED_UTILS}: WithContext(trace, context) not found')
+    fn = xs[0]
+    init = [n for n in ast.walk(fn) if isinstance(n, (ast.Assign, ast.AnnAssign)) and norm(n.targets[0] if isinstance(n, ast.Assign) else n.target) == 'next_trace'
+            and n.value is not None and norm(n.value) == 'trace']
+    calls = [n for n in ast.walk(fn) if isinstance(n, ast.Call) and norm(n.func) == 'next_trace' and [norm(x) for x in n.args] == ['frame', 'event', 'arg']]
+    stores = [n for n in ast.walk(fn) if isinstance(n, ast.Name) and isinstance(n.ctx, ast.Store) and n.id == 'trace']
+    if len(init) != 1 or len(calls) != 1 or stores:
+        raise TranslateError(f'{SRC_SPAWNED_UTILS}: WithContext does not start from `next_trace = trace` and call `next_trace(frame, event, arg)` once')
+
+
+def scan_id_hooks(repo: Path):
+    """every hook of ID_HOOKS is implemented (@hookimpl) by its one expected class, anywhere under the plugin package"""
+    found = {}
+    for path in sorted((repo / PLUGINS_DIR).rglob('*.py')):
+        rel = str(path.relative_to(repo))
+        try:
+            tree = ast.parse(path.read_text())
+        except SyntaxError as e:
+            raise TranslateError(f'{rel}: {e}')
+        def is_impl(fn):
+            return any('hookimpl' in norm(d) for d in fn.decorator_list)
+        for node in ast.walk(tree):
+            if isinstance(node, ast.ClassDef):
+                for m in node.body:
+                    if isinstance(m, (ast.FunctionDef, ast.AsyncFunctionDef)) and m.name in ID_HOOKS and is_impl(m):
+                        found.setdefault(m.name, []).append((rel, node.name))
+        for m in tree.body:
+            if isinstance(m, (ast.FunctionDef, ast.AsyncFunctionDef)) and m.name in ID_HOOKS and is_impl(m):
+                found.setdefault(m.name, []).append((rel, '<module>'))
+        for node in ast.walk(tree):
+            # hookimpl(specname='current_trace_no') on a method of another name
+            if isinstance(node, ast.Call) and 'hookimpl' in norm(node.func):
+                for k in node.keywords:
+                    if k.arg == 'specname' and isinstance(k.value, ast.Constant) and k.value.value in ID_HOOKS:
+                        raise TranslateError(f'{rel}:{node.lineno}: hookimpl(specname={k.value.value!r})')
+    for h, cls in ID_HOOKS.items():
+        got = found.get(h, [])
+        if [c for _, c in got] != [cls]:
+            raise TranslateError(f'the hook {h} must be implemented by {cls} alone; found {got}')
+    # each translated plugin class is registered exactly once, unconditionally
+    tree = parse(repo, SRC_PLUGINS_INIT)
+    regs = [n for n in tree.body if isinstance(n, ast.FunctionDef) and n.name == 'register']
+    if len(regs) != 1:
+        raise TranslateError(f'{SRC_PLUGINS_INIT}: register() not found')
+    top = [norm(st.value.args[0]) for st in regs[0].body
+           if isinstance(st, ast.Expr) and isinstance(st.value, ast.Call) and norm(st.value.func) == 'hook.register' and len(st.value.args) == 1]
+    everywhere = [norm(n.args[0]) for n in ast.walk(regs[0]) if isinstance(n, ast.Call) and norm(n.func) == 'hook.register' and len(n.args) == 1]
+    for cls in sorted(set(ID_HOOKS.values()) | {'Repeater'}):
+        if top.count(cls) != 1 or everywhere.count(cls) != 1:
+            raise TranslateError(f'{SRC_PLUGINS_INIT}: {cls} is not registered exactly once at the top level of register()')
+
+
+def check_module_level(tree, rel: str, names: set[str]):
+    """no module-level statement rebinds or patches a translated class / function"""
+    for st in tree.body:
+        if isinstance(st, (ast.Import, ast.ImportFrom)):
+            for a in st.names:
+                if (a.asname or a.name) in names:
+                    raise TranslateError(f'{rel}:{st.lineno}: import rebinds {a.asname or a.name}')
+            continue
+        if isinstance(st, (ast.ClassDef, ast.FunctionDef, ast.AsyncFunctionDef)):
+            continue
+        if isinstance(st, ast.Expr) and isinstance(st.value, ast.Constant):
+            continue
+        mentioned = {n.id for n in ast.walk(st) if isinstance(n, ast.Name)} | {n.attr for n in ast.walk(st) if isinstance(n, ast.Attribute)}
+        if mentioned & names:
+            raise TranslateError(f'{rel}:{st.lineno}: module-level statement `{norm(st).splitlines()[0]}` mentions {sorted(mentioned & names)}')
+        if not isinstance(st, (ast.Assign, ast.AnnAssign)) or any(isinstance(n, (ast.Attribute, ast.Subscript)) and isinstance(n.ctx, ast.Store) for n in ast.walk(st)):
+            raise TranslateError(f'{rel}:{st.lineno}: module-level statement `{norm(st).splitlines()[0]}` not understood')
+    for nm in names:
+        defs = [n for n in tree.body if isinstance(n, (ast.ClassDef, ast.FunctionDef, ast.AsyncFunctionDef)) and n.name == nm]
+        if len(defs) > 1:
+            raise TranslateError(f'{rel}: {nm} defined {len(defs)} times')
+
+
 # ------------------------------------------------------------------ output
 
 def coq_ident(cls: str, m: str) -> str:
@@ -810,19 +1044,32 @@ def translate(repo: Path) -> str:
     counters = translate_counters(parse(repo, SRC_COUNT), types_tree)
     cset = set(counters)
     conc = parse(repo, SRC_CONC)
+    comp_tree, local_tree, pdbf_tree, aio_tree = parse(repo, SRC_COMPOSER), parse(repo, SRC_LOCAL), parse(repo, SRC_PDBFACTORY), parse(repo, SRC_AIO)
+    scan_id_hooks(repo)
+    check_with_context(parse(repo, SRC_SPAWNED_UTILS))
+    check_module_level(comp_tree, SRC_COMPOSER, {'ThreadTaskIdComposer'})
+    check_module_level(conc, SRC_CONC, {'TaskAndThreadKeeper', 'TaskOrThreadToTraceMapper'})
+    check_module_level(local_tree, SRC_LOCAL, {'LocalTraceFunc', 'Factory'})
+    check_module_level(pdbf_tree, SRC_PDBFACTORY, {'PdbInstanceFactory', 'Factory'})
     classes = [
-        ('Composer', translate_class(parse(repo, SRC_COMPOSER), SRC_COMPOSER, 'ThreadTaskIdComposer', cset)),
+        ('Composer', translate_class(comp_tree, SRC_COMPOSER, 'ThreadTaskIdComposer', cset)),
         ('Keeper', translate_class(conc, SRC_CONC, 'TaskAndThreadKeeper', cset)),
         ('Mapper', translate_class(conc, SRC_CONC, 'TaskOrThreadToTraceMapper', cset)),
         ('Repeater', translate_class(parse(repo, SRC_REPEAT), SRC_REPEAT, 'Repeater', cset, only=REPEATER_METHODS)),
+        ('Local', translate_class(local_tree, SRC_LOCAL, 'LocalTraceFunc', cset, factories={'Factory': 'local_factory'})),
+        ('PdbFactory', translate_class(pdbf_tree, SRC_PDBFACTORY, 'PdbInstanceFactory', cset, factories={'Factory': 'pdb_factory'})),
     ]
+    local_factory = read_closure_factory(local_tree, SRC_LOCAL, {'TraceCallNoCounter'}, {'_context'})
+    pdb_factory = read_closure_factory(pdbf_tree, SRC_PDBFACTORY, {'CmdloopHook', 'PromptFunc'}, set())
     for need_cls, need in (('Composer', ['__init__', '__call__']), ('Keeper', ['__init__', 'filtered', '_on_end']),
-                           ('Mapper', ['__init__'])):
+                           ('Mapper', ['__init__']), ('Local', ['init', 'local_trace_func']),
+                           ('PdbFactory', ['init', 'create_local_trace_func'])):
         ms = dict(classes)[need_cls]
         for m in need:
             if m not in ms:
                 raise TranslateError(f'{need_cls}.{m} not found')
-    fun_body = translate_function(parse(repo, SRC_AIO), SRC_AIO, 'current_task_or_thread')
+    check_module_level(aio_tree, SRC_AIO, {'current_task_or_thread'})
+    fun_body = translate_function(aio_tree, SRC_AIO, 'current_task_or_thread')
     L = [
         '(** GENERATED by translate/ids_funs.py (ast, CPython %d.%d) -- do not edit.' % sys.version_info[:2],
         f'    From {SRC_COMPOSER}, {SRC_CONC},',
@@ -852,7 +1099,14 @@ def translate(repo: Path) -> str:
     L.append('')
     L.append('Definition methods : list (cls * string * (list string * stmt)) :=\n  [' + ';\n   '.join(table) + '].')
     L.append('')
-    L.append('Definition functions : list (string * stmt) :=\n  [("current_task_or_thread", current_task_or_thread_body)].')
+    L.append(f'(** {SRC_LOCAL}: the closure Factory(hook)._factory (what the defaultdict of LocalTraceFunc calls on a miss) *)')
+    L.append(f'Definition local_factory_body : stmt :=\n  {local_factory}.')
+    L.append('')
+    L.append(f'(** {SRC_PDBFACTORY}: the closure Factory(hook)._factory (a new StdInOut and a new CustomizedPdb per call) *)')
+    L.append(f'Definition pdb_factory_body : stmt :=\n  {pdb_factory}.')
+    L.append('')
+    L.append('Definition functions : list (string * stmt) :=\n  [("current_task_or_thread", current_task_or_thread_body);\n'
+             '   ("local_factory", local_factory_body);\n   ("pdb_factory", pdb_factory_body)].')
     L.append('')
     L.append('(** the methods that carry @hookimpl, in source order *)')
     L.append('Definition hookimpls : list (string * cls) :=\n  [' + '; '.join(hooks) + '].')
